@@ -351,6 +351,9 @@ func zeroVal(k *Kind) Val {
 			for _, d := range ghostDecls[k.Name] {
 				g[d.Name] = zeroVal(ghostKind(d.Kind))
 			}
+			if a := adtOf[k.Name]; a != nil {
+				return &ObjV{K: k, ID: App(a.Nil, a.Sort), Ghost: g}
+			}
 			return &ObjV{K: k, ID: Zero, Ghost: g}
 		}
 		if k.K == "ptr" {
